@@ -42,7 +42,7 @@ NICE = {"rs": [0.05, 0.02, 0.1], "vdrop": [0.3, 0.1], "ig": [0.001, 0.002], "iq"
 def _nice(ctx, x, key, kind, idx, pol="pos"):
     if key == "vo":
         base = [5.0 + idx, 12.0, 3.3]
-        if pol == "neg":
+        if pol in ("neg", "nonpos"):
             base = [-b for b in base]
         elif pol == "any":
             base = base + [0.0] + [-b for b in base]
@@ -98,6 +98,8 @@ def build_system(ctx, shape, assume_nonneg=True, sysname="sys", rt="none"):
                     ctx.assume(Not(IsZero(v)))
                 elif pol == "nonneg":
                     ctx.assume(v >= 0)
+                elif pol == "nonpos":
+                    ctx.assume(v <= 0)
             if k == "rs" and kind == "RLoad":
                 ctx.assume(v > 0)
             _nice(ctx, v, k, kind, idx, pol)
@@ -132,6 +134,9 @@ def build_system(ctx, shape, assume_nonneg=True, sysname="sys", rt="none"):
             ctx.nice(d, [10.0 * (n + 1), 3.0 + n])
             durations[p] = d
         if not shape.get("comp_phases_first"):
+            if shape.get("prior_sys_phases"):
+                # an earlier schedule (other names / more phases) that the final call replaces
+                sysobj.set_sys_phases({p: 7.0 + k for k, p in enumerate(shape["prior_sys_phases"])})
             sysobj.set_sys_phases(dict(durations))
         for idx, nd in enumerate(shape["nodes"]):
             pc = nd.get("phases")
@@ -151,6 +156,18 @@ def build_system(ctx, shape, assume_nonneg=True, sysname="sys", rt="none"):
                     conf[p] = val
             else:
                 conf = list(pc)
+            if nd.get("prior_phases") is not None:
+                # an earlier configuration of the same component that the final call replaces (nothing of it may survive)
+                if kind in spec.LOADS:
+                    prior = {}
+                    for n, p in enumerate(nd["prior_phases"]):
+                        pv = ctx.real("%s.prior[%s]" % (name, p))
+                        ctx.assume(pv > 0)
+                        ctx.nice(pv, [0.7 + 0.1 * n, 55.0])
+                        prior[p] = pv
+                else:
+                    prior = list(nd["prior_phases"])
+                sysobj.set_comp_phases(name, prior)
             # the API resolves rail names as well as component names
             sysobj.set_comp_phases(nd["rail"] if nd.get("phase_via_rail") else name, conf)
             info[name]["conf"] = conf
